@@ -185,7 +185,16 @@ def build_tensor(t, depth, shapes=None, d=0, rank_ids=None, name=None):
     if shapes is not None:
         kw["shape"] = list(shapes)
     T = Tensor.fromFiber(rank_ids=rank_ids, fiber=root, **kw)
-    if d != 0:
+    if MODE["touch"] and MODE["vkind"] == "float":
+        # the leaf default is replaced once after having been read: nothing of the first one may survive
+        T.setDefault(float(d) + 0.5)
+        for q in (lambda: T.getDefault(), lambda: T.ranks[-1].getDefault(), lambda: T.ranks[-1].getAttrs().getDefault()):
+            try:
+                q()
+            except Exception:
+                pass
+        T.setDefault(float(d))
+    elif d != 0:
         T.setDefault(dress(d))
     if name is not None:
         T.setName(name)
